@@ -46,6 +46,21 @@ def Cluster.l1 (cl : Cluster) (c : Nat) : Option State := (cl.l1s.getD c none)
 def Cluster.setL1 (cl : Cluster) (c : Nat) (l : State) : Cluster := { cl with l1s := cl.l1s.set c (some l) }
 def Cluster.setServer (cl : Cluster) (i : Nat) (s : State) : Cluster := { cl with servers := cl.servers.set i s }
 
+/-- how a client reaches one server: the five calls of `tcp_cache`.  `wireT` is the real thing (frames
+built, validated and parsed as in `Wire.lean`); the proofs also use a message-level transport
+(`Abstract.lean`) and show that the two agree under the size bounds. -/
+structure Transport where
+  fetch : State → Time → Key → Bool → Option Gen → State × TcpRes
+  store : State → Time → Key → Val → List Key → Time → State
+  rise : State → Key → State
+  clear : State → State
+  stats : State → Nat × Nat
+
+def wireT : Transport := ⟨tcpFetch, tcpStore, tcpRise, tcpClear, tcpStats⟩
+
+section
+variable (T : Transport)
+
 /-- `cache_over_ip::fetch`.  The caller's trigger set is taken to be empty on entry;
 `wantTags = false` is `tags = 0`. -/
 def fetchOp (cl : Cluster) (c : Nat) (nowC nowS : Time) (k : Key) (wantTags : Bool) : Cluster × Out :=
@@ -55,14 +70,14 @@ def fetchOp (cl : Cluster) (c : Nat) (nowC nowS : Time) (k : Key) (wantTags : Bo
   | some s =>
     match cl.l1 c with
     | none =>
-      let (s', r) := tcpFetch s nowS k wantTags none
+      let (s', r) := T.fetch s nowS k wantTags none
       match r with
       | .found v ts d g => (cl.setServer i s', .hit v ts d g)
       | _ => (cl.setServer i s', .miss)
     | some l =>
       match C07.step l (.fetch nowC k) with
       | (l1, .hit vL tL dL gL) =>
-        let (s', r) := tcpFetch s nowS k true (some gL)
+        let (s', r) := T.fetch s nowS k true (some gL)
         match r with
         | .upToDate => ((cl.setServer i s').setL1 c l1, .hit vL (if wantTags then tL else []) dL gL)
         | .notFound =>
@@ -72,7 +87,7 @@ def fetchOp (cl : Cluster) (c : Nat) (nowC nowS : Time) (k : Key) (wantTags : Bo
           ((cl.setServer i s').setL1 c (C07.step l1 (.store nowC k v (tL ++ ts) d (some g))).1,
             .hit v (if wantTags then tL ++ ts else []) d g)
       | (l1, _) =>
-        let (s', r) := tcpFetch s nowS k true none
+        let (s', r) := T.fetch s nowS k true none
         match r with
         | .found v ts d g =>
           ((cl.setServer i s').setL1 c (C07.step l1 (.store nowC k v ts d (some g))).1,
@@ -87,34 +102,40 @@ def storeOp (cl : Cluster) (c : Nat) (nowS : Time) (k : Key) (v : Val) (trigs : 
   let i := shard cl1.servers.length k
   match cl1.servers[i]? with
   | none => cl1
-  | some s => cl1.setServer i (tcpStore s nowS k v trigs d)
+  | some s => cl1.setServer i (T.store s nowS k v trigs d)
 
 /-- `cache_over_ip::rise`: L1, then `broadcast` to every server -/
 def riseOp (cl : Cluster) (c : Nat) (t : Key) : Cluster :=
   let cl1 := match cl.l1 c with
     | some l => if Gen.riseAppliesL1 then cl.setL1 c (C07.step l (.rise t)).1 else cl
     | none => cl
-  { cl1 with servers := cl1.servers.map fun s => tcpRise s t }
+  { cl1 with servers := cl1.servers.map fun s => T.rise s t }
 
 def clearOp (cl : Cluster) (c : Nat) : Cluster :=
   let cl1 := match cl.l1 c with
     | some l => if Gen.clearAppliesL1 then cl.setL1 c (C07.step l .clear).1 else cl
     | none => cl
-  { cl1 with servers := cl1.servers.map tcpClear }
+  { cl1 with servers := cl1.servers.map T.clear }
 
 /-- `tcp_cache::stats`: `unsigned` sums over all servers -/
 def statsOp (cl : Cluster) : Out :=
-  let r := cl.servers.foldl (fun (acc : Nat × Nat) s => let (k, t) := tcpStats s; ((acc.1 + k) % u32, (acc.2 + t) % u32)) (0, 0)
+  let r := cl.servers.foldl (fun (acc : Nat × Nat) s => let (k, t) := T.stats s; ((acc.1 + k) % u32, (acc.2 + t) % u32)) (0, 0)
   .stats r.1 r.2
 
-def step (cl : Cluster) : Op → Cluster × Out
-  | .fetch c nowC nowS k wantTags => fetchOp cl c nowC nowS k wantTags
-  | .store c nowS k v trigs d => (storeOp cl c nowS k v trigs d, .done)
-  | .rise c t => (riseOp cl c t, .done)
-  | .clear c => (clearOp cl c, .done)
+def stepT (cl : Cluster) : Op → Cluster × Out
+  | .fetch c nowC nowS k wantTags => fetchOp T cl c nowC nowS k wantTags
+  | .store c nowS k v trigs d => (storeOp T cl c nowS k v trigs d, .done)
+  | .rise c t => (riseOp T cl c t, .done)
+  | .clear c => (clearOp T cl c, .done)
   | .remove _ _ => (cl, .done)      -- `cache_over_ip::remove`: "NA", empty body
-  | .stats _ => (cl, statsOp cl)
+  | .stats _ => (cl, statsOp T cl)
 
-def run (cl : Cluster) (ops : List Op) : Cluster := ops.foldl (fun cl op => (step cl op).1) cl
+def runT (cl : Cluster) (ops : List Op) : Cluster := ops.foldl (fun cl op => (stepT T cl op).1) cl
+end
+
+/-- one operation of one client, over the real wire codec -/
+def step (cl : Cluster) (op : Op) : Cluster × Out := stepT wireT cl op
+
+def run (cl : Cluster) (ops : List Op) : Cluster := runT wireT cl ops
 
 end Cppcms.C10
